@@ -24,7 +24,7 @@ package ice
 //@   trusted
 //@   modifies candidateConn.gClosed, candidateConn.gHeld, fam:*
 //@   ensures success-consumes-the-socket: result == nil ==> (candidateConn.gHeld && candidateConn.gClosed == old(candidateConn.gClosed)) || (!candidateConn.gHeld && candidateConn.gClosed == old(candidateConn.gClosed) + 1) || old(candidateConn.gHeld)
-//@   ensures failure-leaves-it-with-the-caller: result != nil ==> candidateConn.gClosed == old(candidateConn.gClosed) && candidateConn.gHeld == old(candidateConn.gHeld)
+//@   ensures failure-leaves-it-with-the-caller: result != nil ==> candidateConn.gClosed == old(candidateConn.gClosed) && candidateConn.gHeld == old(candidateConn.gHeld) && unchangedExcept()
 
 // One server-reflexive gathering attempt (per URL and local address).
 //@ func (*Agent).gatherCandidatesSrflx$1
@@ -34,9 +34,16 @@ package ice
 //@   ghostvar sock int = 0
 //@   site call listenUDPInPortRange#1 ghost acquired := result1 == nil
 //@   site call listenUDPInPortRange#1 ghost sock := result0.payload
-//@   site call closeConnAndLog#0 assert closes-only-its-own-socket-and-only-once: arg0.payload == conn.payload && (acquired ==> conn.gClosed == 0 && !conn.gHeld)
+//@   site call closeConnAndLog#0 assert closes-only-its-own-socket: arg0.payload == conn.payload && !released
 //@   site call addCandidate#1 assert hands-over-an-open-socket: arg3.payload == conn.payload && acquired && conn.gClosed == 0
 //@   ghostvar released bool = false
 //@   site call closeConnAndLog#0 ghost released := true
 //@   site call addCandidate#1 ghost released := result == nil
 //@   ensures every-acquired-socket-is-closed-once-or-owned-by-a-candidate: acquired ==> released
+
+// A freshly constructed candidate has not been started: it owns no socket.
+//@ func NewCandidateServerReflexive
+//@   props C09
+//@   trusted
+//@   pure
+//@   ensures result1 == nil ==> result0 != nil && result0.candidateBase.closeCh == nil && result0.candidateBase.conn == nil
